@@ -1,16 +1,18 @@
-\* C03 leg A quick: 2 stores, <= 2 frames per store, <= 3 frames in all, 2 label sets (replica label in the
-\* middle), 4 chunk lists (raw, aggregated, none, aggregated sharing a sub-chunk), response batch 0 and 2
+\* C03 leg A quick: 2 stores, <= 2 frames per store, <= 3 frames in all; frames: 2 label sets (replica label in the
+\* middle) x 3 chunk lists (raw, aggregated, none), or a hints message; lazy and eager; response batch 2
 SPECIFICATION Spec
 CONSTANTS NStores = 2
           MaxPerStore = 2
           MaxTotal = 3
           NLsets = 2
-          NChunkLists = 4
-          RespBatch = {0, 2}
+          NChunkLists = 3
+          NNonSeries = 1
+          Eager = {FALSE, TRUE}
+          RespBatch = {2}
           CaseStores = 2
           CasePerStore = 2
           CaseTotal = 3
           CaseStride = 4
-INVARIANTS C03_Response C03_EmittedIsFinal C03_Batching C03_TieIndependent
+INVARIANTS C03_Response C03_EmittedIsFinal C03_Batching C03_TieIndependent C03_NonSeriesCarried
 PROPERTY C03_Progresses
 CHECK_DEADLOCK TRUE
